@@ -69,7 +69,7 @@ CONFS = {
 }
 
 QUICK = [('TupleFixed_Iterable_int', 'default'), ('List_int', 'default'), ('Dict_int_int_value', 'warn'),
-         ('Iterable_int_list', 'default'), ('Union_bool_Listint', 'exc'), ('Mapping_int_Listint', 'default'),
+         ('Iterable_int_list', 'default'), ('Optional_int', 'exc'), ('Mapping_int_Listint', 'default'),
          ('TupleFixed_int_bool', 'mixed'), ('Sequence_int_user', 'retwarn'), ('Set_int', 'default'),
          ('Reversible_int_seq', 'nonrandom'), ('KeysView_int', 'default'), ('Annotated_int_vale', 'minimal')]
 
@@ -94,7 +94,8 @@ def make_spec(shape, confname):
 
 
 # combinations that do not exhaust within the cap (measured); they stay covered by part A
-EXCLUDE = {('Union_bool_Listint', 'On'), ('Union_bool_Listint', 'mixed'), ('List_List_int', 'On')}
+EXCLUDE = {('Union_bool_Listint', 'On'), ('Union_bool_Listint', 'mixed'), ('Union_bool_Listint', 'exc'),
+           ('Union_bool_Listint', 'warn'), ('Union_bool_Listint', 'retwarn'), ('List_List_int', 'On')}
 # shapes removed for the same reason: Counter / DefaultDict / OrderedDict / ChainMap built from a
 # symbolic dict (C-level constructors realise every key and value)
 
